@@ -197,6 +197,9 @@ def parse_operand(s: str) -> Operand:
         return Operand('move', parse_place(s[5:]))
     if s.startswith('const '):
         return Operand('const', const=parse_const(s[6:]))
+    if re.match(r'^[A-Za-z_<][\w:<>,& \'\[\]()]*$', s) and '::' in s:
+        # a function item used as a value (`.map(drop)`): a zero-sized constant naming the function
+        return Operand('const', const=('zst', s))
     raise ValueError('operand? ' + s)
 
 
